@@ -256,6 +256,16 @@ def run(ctx, idx):
                     raise AnalysisError("C18.a: rounding guard `%s` is outside the recognised forms" % K.src(e)[:70])
                 return None
 
+            # the guard looks at the element type of the VALUES it is about to round (what `variable[:]` delivered), not at the
+            # file variable's storage type: netCDF4 unpacks a packed variable (int16 + scale_factor / add_offset) into float64
+            rarg = rints[0].args[0] if rints[0].args and isinstance(rints[0].args[0], ast.Name) else None
+            if guard is not None and rarg is not None:
+                for x_ in ast.walk(K.expand(fi, guard)):
+                    if isinstance(x_, ast.Attribute) and x_.attr == "dtype" and K.src(x_.value) != rarg.id:
+                        src_defs = [n_.value for n_ in own_nodes(fi.node) if isinstance(n_, ast.Assign) and any(isinstance(t_, ast.Name) and t_.id == rarg.id for t_ in n_.targets)]
+                        if any(isinstance(v_, ast.Subscript) and K.src(K.expand(fi, v_.value)) == K.src(x_.value) for v_ in src_defs):
+                            ctx.violate("C18.a", "%s.execute::rounding-decided-by-the-values" % d.key, d.module.rel, rints[0].lineno, "the rounding step is decided by `%s.dtype`, the STORAGE type of the file variable, not by the element type of `%s`, the values read from it: a packed variable (int16 with scale_factor / add_offset) is delivered as float64 but stored as an integer, so its fractional values are not rounded and the integer cast truncates them (2.7 reads as 2)" % (K.src(x_.value)[:40], rarg.id))
+                            break
             missing = []
             if guard is not None:
                 for nm in integral:
@@ -352,6 +362,28 @@ def run(ctx, idx):
             missm = frozenset()
         ctx.ob("C18.d", con, d.module.rel, line, not missm, "stored value's mask covers every written result (%s)" % R.tok_text(v.M) if not missm else
                "the mask written with each variable does not cover the missing cells of %s: a cell missing in one result is written as valid in the others" % R.tok_text(missm))
+    # the union is complete before the first variable is written: the statement storing a variable does not sit in the loop that
+    # still accumulates the mask it stores (a running union gives variable i the missing cells of results 1..i only)
+    con_u = "%s.execute::union-complete-before-writing" % d.key
+    running = None
+    for lp_ in [n_ for n_ in own_nodes(fi.node) if isinstance(n_, ast.For)]:
+        acc = set()
+        for st_ in ast.walk(lp_):
+            if isinstance(st_, ast.AugAssign) and isinstance(st_.target, ast.Name) and isinstance(st_.op, ast.BitOr):
+                acc.add(st_.target.id)
+            if isinstance(st_, ast.Assign) and len(st_.targets) == 1 and isinstance(st_.targets[0], ast.Name) and st_.targets[0].id in K.names_in(st_.value) \
+                    and any(isinstance(c_, ast.Call) and K.src(c_.func).split(".")[-1] in ("mask_or", "logical_or", "bitwise_or") for c_ in ast.walk(st_.value)) or \
+                    (isinstance(st_, ast.Assign) and len(st_.targets) == 1 and isinstance(st_.targets[0], ast.Name) and isinstance(st_.value, ast.BinOp) and isinstance(st_.value.op, ast.BitOr) and st_.targets[0].id in K.names_in(st_.value)):
+                acc.add(st_.targets[0].id)
+        if not acc:
+            continue
+        for st_ in ast.walk(lp_):
+            if isinstance(st_, ast.Assign) and any(isinstance(t_, ast.Subscript) and K.src(t_).endswith("[:]") for t_ in st_.targets) and (K.names_in(st_.value) & acc):
+                running = (st_, sorted(K.names_in(st_.value) & acc)[0])
+    if running is not None:
+        ctx.violate("C18.d", con_u, d.module.rel, running[0].lineno, "`%s` stores a variable inside the loop that is still accumulating `%s`: the i-th variable gets the missing cells of the first i results only (the last one alone carries the full union), so a cell missing in a later result is written as valid in the earlier ones and the outcome depends on the order of the fields" % (K.src(running[0])[:60], running[1]))
+    else:
+        ctx.hold("C18.d", con_u, d.module.rel, fi.node.lineno, "no variable is stored inside a loop that accumulates the mask it stores", nontrivial=False)
     R.leaves_inputs_alone(ctx, "C18.d", d, r, "the union of missing cells is accumulated inside the first result itself, so that result carries the other results' missing cells from then on and any later write of it stores cells as missing that never were")
     cv = [n for n in own_nodes(fi.node) if isinstance(n, ast.Call) and isinstance(n.func, ast.Attribute) and n.func.attr == "createVariable" and any(k.arg == "fill_value" for k in n.keywords)]
     con = "%s.execute::variable-type-and-fill" % d.key
@@ -375,10 +407,19 @@ def run(ctx, idx):
                     loopvar = n.target.elts[0].id
 
         def resolved(x):
+            import copy
+
             x = K.expand(fi, x)
             if isinstance(x, ast.Name) and x.id in par:
                 return K.src(par[x.id])
-            return K.src(x)
+
+            class S_(ast.NodeTransformer):
+                def visit_Name(self, nd):
+                    if isinstance(nd.ctx, ast.Load) and nd.id in par:
+                        return copy.deepcopy(par[nd.id])
+                    return nd
+
+            return K.src(S_().visit(copy.deepcopy(x)))
 
         a = [resolved(x) if x is not None else "" for x in a_nodes]
         fv = resolved(kws["fill_value"])
